@@ -401,14 +401,28 @@ def funnel_rejects_none(C, b, name):
 
 def guarded_by_cdata_match(b, pos):
     """the removal is dominated by the CharacterData edge of a match on an item of the same content list."""
+    from flow import deep_sources as _dsg, must_pass as _mp
     for p, s in b.iter_stmts():
-        if s['k'] == 'assign' and s['rv']['k'] == 'discr' and has_field(resolve_place(b, s['rv']['pl']), 'ElementRaw.content'):
-            t = b.blocks[p[0]]['term']
-            if t['k'] == 'switch':
-                d = dict(t['ts'])
-                tgt = d.get('1')  # ElementContent::CharacterData = variant 1
-                if tgt is not None and b.pos_dominates((tgt, 0), pos) and t['else'] != tgt:
-                    return True
+        if s['k'] != 'assign' or s['rv']['k'] != 'discr':
+            continue
+        pl = s['rv']['pl']
+        direct = has_field(resolve_place(b, pl), 'ElementRaw.content')
+        # the item may come from `content.get(position)`: an &ElementContent whose provenance is the content list
+        via_get = (not direct) and 'ElementContent' in (b.local_ty(pl['l']) or '') and 'ElementRaw.content' in _dsg(b, {'l': pl['l'], 'p': []}, depth=12)[2]
+        if not (direct or via_get):
+            continue
+        t = b.blocks[p[0]]['term']
+        if t['k'] == 'switch':
+            d = dict(t['ts'])
+            tgt = d.get('1')  # ElementContent::CharacterData = variant 1
+            if tgt is None or t['else'] == tgt:
+                continue
+            if b.pos_dominates((tgt, 0), pos):
+                return True
+            # `if !matches!(item, Some(CharacterData(_))) { return Err }`: the removal is unreachable once the CharacterData edge is cut
+            # (variant- and flag-sensitive walk: the other arms set the flag to false, which leads to the early return)
+            if _mp(b, (0, 0), [pos], through=(), avoid_edges={(p[0], tgt)}, precise=True):
+                return True
     return False
 
 
